@@ -15,7 +15,9 @@ use chrono::{format::StrftimeItems, DateTime, Local};
 use super::{FileType, Matcher, MatcherIO, WalkEntry, WalkError};
 
 #[cfg(unix)]
-use std::os::unix::prelude::MetadataExt;
+use std::ffi::OsStr;
+#[cfg(unix)]
+use std::os::unix::prelude::{MetadataExt, OsStrExt};
 
 const STANDARD_BLOCK_SIZE: u64 = 512;
 
@@ -448,6 +450,19 @@ fn format_directive<'entry>(
         // - "." also returns "."
         // - ".." returns "." (???)
         // These are all (thankfully) documented on the find(1) man page.
+        // Path::parent() would also drop `.` components (`dir/./file`, `dir/.`).
+        #[cfg(unix)]
+        FormatDirective::Dirname => {
+            let bytes = file_info.path().as_os_str().as_bytes();
+            let trim = |b: &[u8]| b.iter().rposition(|&c| c != b'/').map_or(0, |i| i + 1);
+            let name_end = trim(bytes);
+            match bytes[..name_end].iter().rposition(|&c| c == b'/') {
+                None if name_end == 0 => "".into(),
+                None => ".".into(),
+                Some(slash) => OsStr::from_bytes(&bytes[..trim(&bytes[..slash])]).to_string_lossy(),
+            }
+        }
+        #[cfg(not(unix))]
         FormatDirective::Dirname => match file_info.path().parent() {
             None => "".into(),
             Some(p) if p == Path::new("/") => "".into(),
